@@ -65,7 +65,7 @@ top:
 				}
 			}
 		}
-		result = tv
+		result = literal(tv)
 	case jp.Expr:
 		if 0 < len(tv) {
 			if _, ok := tv[0].(jp.At); ok {
@@ -83,7 +83,7 @@ top:
 		}
 		result = tv
 	default:
-		result = value
+		result = literal(value)
 	}
 	return
 }
